@@ -25,7 +25,7 @@ AGF = "maltoolbox.attackgraph.attackgraph:AttackGraph."
 ATT = "maltoolbox.attackgraph.attacker:Attacker."
 APR = "maltoolbox.attackgraph.analyzers.apriori:"
 SCOPE = {
-    "quick": "every applicable history of <=3 operations over a 42-letter alphabet (add_node x {auto id, lowest free id, high "
+    "quick": "every applicable history of <=3 operations over a 41-letter alphabet (add_node x {auto id, lowest free id, high "
              "free id, used id} x {isolated, linked under the first node}; re-add of the node removed last (edge lists cleared); remove_node of "
              "node 0/1/2; add_attacker x {auto, id 0, high id, clashing id} x {no steps, 1 step, 2 steps, unknown reached id, "
              "unknown entry id}; remove_attacker 0/1; attach_attackers; compromise/undo from attacker side and node side; "
@@ -48,6 +48,8 @@ ASSUMPTIONS = ["reference = abstract state updated per operation from the proper
                "(as _generate_graph and _from_dict do)",
                "after deepcopy / save-load the reference is re-read from the new (well-formed) graph",
                "a history stops at its first failing step",
+               "re-inserting, with add_node, a node object that was removed earlier (edge lists cleared by the client) is a "
+               "legal call and must get a fresh id",
                "labels after calculate_viability_and_necessity are taken from the graph (their values are C08); everything "
                "else must be unchanged by it",
                "rejected calls may advance next_node_id / next_attacker_id (counters are not compared for rejected calls)"]
